@@ -499,12 +499,35 @@ register(
 _C16 = dict(p_history=0.4, p_compound=0.4, p_parallel=0.4, p_final=0.08, p_always=0.08, p_raise=0.08, n_states=(6, 13),
             p_trans=0.6, w_target={"history": 5, "any": 5, "ancestor": 2}, p_extra_entry=0.2)
 
+def gen_c16_actors(engine):
+    """Actor scenarios (the C15 command interpreter) whose explicit actor ids are short hex-like strings while generated ids
+    are uuid4-shaped and differ in every execution: "generated identifiers ... never influence ordering or selection"."""
+    def g(seed):
+        import json as _json
+        import re as _re
+        base = C15_gen(engine)(seed)
+        txt = _json.dumps(base)
+        for old, new in (("k1", "a1"), ("k2", "b2"), ("k3", "c3"), ("g1", "d4"), ("g2", "e5"), ("h1", "f6")):
+            txt = _re.sub(r"(?<![A-Za-z0-9_])" + old + r"(?![A-Za-z0-9_])", new, txt)
+        sc = _json.loads(txt)
+        sc["uuid_mode"] = "hex"
+        sc.pop("post_stop", None)
+        return sc
+    return g
+
+
+def C15_gen(engine):
+    from . import c15 as _c15
+    return _c15.gen_c15(engine)
+
+
 register(
     "C16",
     families=[("det_sync", 3, gen_core("sync", 161, **_C16)), ("det_async", 3, gen_core("async", 162, **_C16)),
               ("det_pure", 1, gen_core("pure", 163, **_C16)),
               ("det_hist_parallel_sync", 1, gen_core("sync", 164, hist_parallel=True, **_C16)),
-              ("det_timers_async", 1, gen_core("async", 165, ops_kw={"p_adv": 0.3}, p_after=0.3, p_invoke=0.2, svc_kinds=("coro", "sync"), **_C16))],
+              ("det_timers_async", 1, gen_core("async", 165, ops_kw={"p_adv": 0.3}, p_after=0.3, p_invoke=0.2, svc_kinds=("coro", "sync"), **_C16)),
+              ("det_actors_sync", 1, gen_c16_actors("sync")), ("det_actors_async", 1, gen_c16_actors("async"))],
     runner=O.run_c16,
     level="exploration",
     chunk=20,
